@@ -96,6 +96,9 @@ def cases(draw):
         "reply": draw(st.booleans()),
         "delay": draw(st.sampled_from([0.0, 0.01, 0.029])),
         "winpix": draw(st.booleans()),
+        # directed initial states: None = the generated flags above; "raw" = as after tty.setraw();
+        # "already" = the terminal is already in the very mode the operation is about to set
+        "preset": draw(st.sampled_from([None, None, None, "raw", "already"])),
     }
     return c
 
@@ -112,6 +115,19 @@ def initial_attrs(c):
                 a[idx] &= ~bit
     a[6][termios.VMIN] = c["vmin"]
     a[6][termios.VTIME] = c["vtime"]
+    preset = c.get("preset")
+    if preset == "raw":
+        a[3] &= ~(termios.ICANON | termios.ECHO | termios.ISIG | termios.IEXTEN)
+        a[6][termios.VMIN] = 1
+        a[6][termios.VTIME] = 0
+    elif preset == "already":
+        a[3] &= ~termios.ICANON
+        if c["echo"]:
+            a[3] |= termios.ECHO
+        else:
+            a[3] &= ~termios.ECHO
+        a[6][termios.VTIME] = 0
+        a[6][termios.VMIN] = c["min"] if c["op"] == "read_min" else 0
     return a
 
 
@@ -229,7 +245,7 @@ def _check(c, rec, fd, out_stream):
     init = _norm(initial_attrs(c))
     termios.tcsetattr(fd, termios.TCSANOW, init)
     init = _norm(termios.tcgetattr(fd))  # what the kernel actually stores
-    what = f"op={c['op']} initial(l={c['lflag']} i={c['iflag']} o={c['oflag']} vmin={c['vmin']} vtime={c['vtime']}) echo={c['echo']} input={c['input']!r} reply={c['reply']}"
+    what = f"op={c['op']} preset={c.get('preset')} initial(l={c['lflag']} i={c['iflag']} o={c['oflag']} vmin={c['vmin']} vtime={c['vtime']}) echo={c['echo']} input={c['input']!r} reply={c['reply']}"
 
     def verify(label, sig):
         F.enabled = False
